@@ -15,3 +15,15 @@ package validation
 //@   requires e != nil
 //@   ensures nonempty_sink_is_error: old(len(e.Errors)) > 0 ==> result != nil
 //@   ensures empty_sink_is_nil:      old(len(e.Errors)) == 0 ==> result == nil
+
+// ---- C12: diagnostics are ordered by (file, line, column, message): a lexicographic order over totally ordered keys,
+// hence a strict weak order whose ties render identically. A missing line/column counts as 0. ---------------------------
+//@ spec func lineOf(p *int) int = ite(p == nil, 0, *p)
+//@ func (*ErrorSink).AsError$1
+//@   property C12
+//@   requires e != nil && 0 <= i && i < len(e.Errors) && 0 <= j && j < len(e.Errors)
+//@   ensures lexicographic_file_line_column_message: result == (e.Errors[i].File < e.Errors[j].File || (e.Errors[i].File == e.Errors[j].File && (lineOf(e.Errors[i].Line) < lineOf(e.Errors[j].Line) || (lineOf(e.Errors[i].Line) == lineOf(e.Errors[j].Line) && (lineOf(e.Errors[i].Column) < lineOf(e.Errors[j].Column) || (lineOf(e.Errors[i].Column) == lineOf(e.Errors[j].Column) && e.Errors[i].Message.Error() < e.Errors[j].Message.Error()))))))
+//@ func (*WarningSink).AsStrings$1
+//@   property C12
+//@   requires e != nil && 0 <= i && i < len(e.Warnings) && 0 <= j && j < len(e.Warnings)
+//@   ensures lexicographic_file_line_column_message: result == (e.Warnings[i].File < e.Warnings[j].File || (e.Warnings[i].File == e.Warnings[j].File && (lineOf(e.Warnings[i].Line) < lineOf(e.Warnings[j].Line) || (lineOf(e.Warnings[i].Line) == lineOf(e.Warnings[j].Line) && (lineOf(e.Warnings[i].Column) < lineOf(e.Warnings[j].Column) || (lineOf(e.Warnings[i].Column) == lineOf(e.Warnings[j].Column) && e.Warnings[i].Message < e.Warnings[j].Message))))))
